@@ -81,13 +81,39 @@ def check_cfg(ctx, fx, cfg):
                 is_actor = loops.is_actor_root(fx, b, r, a_idx)
                 if not is_actor:
                     good = False
+        import inline
+        ib = inline.body(ctx, fx, f, inline.not_public)
+        if not oks and a_idx:
+            # the result may be prepared by a private helper (`conclude(actor, stop)` = notify, then `Ok(actor)`): with it
+            # inlined, follow the returned value through the Ok wrapper to what it is made from
+            leaves, work, seen_ = [], [({"k": "move", "p": [0]}, 0)], set()
+            while work:
+                op_, d_ = work.pop()
+                for o_ in ib.origins(op_):
+                    k_ = (o_.kind, o_.site, o_.proj)
+                    if k_ in seen_ or d_ > 8:
+                        continue
+                    seen_.add(k_)
+                    if o_.kind == "agg":
+                        r_ = ib.blocks[o_.site[0]]["s"][o_.site[1]]["r"]
+                        if r_.get("variant") == "Ok" and r_.get("ops"):
+                            for r2 in roots(ib, r_["ops"][0]):
+                                leaves.append(r2)
+                            continue
+                        if r_.get("variant") == "Err":
+                            continue
+                    elif o_.kind == "call" and (ib.call_at(o_).get("callee") or "").endswith("from_residual"):
+                        continue
+            if leaves:
+                good = all(loops.is_actor_root(fx, ib, r2, a_idx) for r2 in leaves)
         ctx.require(good, "R17.1", "%s-loop-returns-its-actor@%s" % (kind, cfg), "the loop must hand back the very actor value its handlers and stopped() worked on", fn=f["def"], site=oks[0].get("l") if oks else f["loc"])
         # stopped() borrowed the same place
-        for bi, t in b.normal_calls():
+        sb_ = b if any(nfa.trait_method(loops.T_ACTOR, "stopped")(t) for _, t in b.normal_calls()) else ib  # (`stop_actor(&mut actor, ctx).await`)
+        for bi, t in sb_.normal_calls():
             if nfa.trait_method(loops.T_ACTOR, "stopped")(t) or loops.is_task_invoke(t):
                 arg = t["args"][0] if not loops.is_task_invoke(t) else None
                 if arg is not None:
-                    ok = all((r.kind == "upvar" and r.site == a_idx[0]) or r.kind == "await" for r in roots(b, arg))
+                    ok = all((r.kind == "upvar" and r.site == a_idx[0]) or r.kind == "await" for r in roots(sb_, arg))
                     ctx.require(ok, "R17.1", "%s-loop-stopped-on-same-actor@%s" % (kind, cfg), "stopped() acts on a different value than the one returned", fn=f["def"], site=t["l"])
     # R17.4 the actor value the loop runs (and hands back) is the one given to the spawn entry point — or a fresh Default
     # where the API says so — handed over unmodified
